@@ -14,6 +14,7 @@ hangs on the SAME owner in all four views: `-> N` column of the flat text == bit
 node tree == owners (label and value) in the nested JSON == owners in the nested text, for every subset.
 Tie: node tree, nested JSON (without the table-text `description`), nested JSON -> flat and the side conditions of
 the conversion theorem, model (driver op `views`) against implementation.
+Serialised path (harness/props/c09cli.py, harness/cli_io.py; theorems Props/C09Cli.lean): see the docstring there.
 Inputs: the shared generated pipeline (levels 0-2, compressed or not, 1-4 subsets; its structural values are the
 same in every subset), messages whose subsets differ in their bitmaps, attribute counts and replication counts
 (harness/c09gen.py: every bitmap operator kind, equal descriptor lists with other links included), the shapes the
@@ -33,6 +34,8 @@ PROP = 'C09'
 # self-test switch: skip the model / implementation comparison so that only the oracle on the implementation can report
 # (notes/C09_mutations.py --oracle)
 ORACLE_ONLY = bool(os.environ.get('VERIF_C09_ORACLE_ONLY'))
+# self-test switch: run one part of the check only (value: cli)
+ONLY = os.environ.get('VERIF_C09_ONLY')
 
 META = dict(
     claimed=True,
@@ -61,13 +64,39 @@ META = dict(
          'values and that the nested text converter applied to the rendered wired tree returns the flat values under the '
          'decidable conditions sideOK + textOK (_partial for the same reason as nested JSON), with proved counterexamples '
          'outside them; the hypotheses on Python repr / literal_eval tokens (ReprOK) are tested on every value met, the model\'s '
-         'lines are compared with the implementation\'s literally (value token by value) incl. hostile names.',
+         'lines are compared with the implementation\'s literally (value token by value) incl. hostile names. The SERIALISED forms '
+         '(what `pybufrkit decode -j [-a]` writes and `encode -j [-a]` reads back) are modelled for character data in '
+         'View/JsonText.lean (bytes.decode(latin-1), json.dumps string escaping with ensure_ascii, json.loads string scanning, '
+         'str.encode(latin-1) in BitWriter.write_bytes, padding to the field width): Props/C09Cli.lean proves for EVERY octet string '
+         'that bytes -> JSON text -> bytes is the identity (C09_json_text_bytes_roundtrip, C09_json_string_escape_roundtrip for every '
+         'string incl. quotes, backslashes, control characters and surrogate pairs, C09_json_file_bytes_roundtrip), that the text is '
+         'printable ASCII whatever the octets, that the field code written from the JSON text is the C02 field code of the bytes for '
+         'every width (C09_json_text_field_code, C09_json_file_encode_same for whole value lists and encodeData), that latin-1 is the '
+         'ONLY serialiser the encoder inverts (C09_json_text_latin1_unique), and refutes the "UTF-8 when valid" serialiser on '
+         'b"Z\\xc3\\xbcrich" (C09_utf8_when_valid_loses_roundtrip); for the TEXT formats the value token of character data is '
+         'modelled too (repr of bytes, ast.literal_eval) and C09_bytes_repr_roundtrip proves literal_eval(repr(b)) == b for every '
+         'octet string. Tie and oracle on the real command line: every message of a '
+         'character-data stream (001015/001019/001026/205YYY/208YYY/section 2 bytes, plain, replicated, with associated fields, '
+         'compressed or not; octets sweeping all 256 values, valid 2-/3-/4-byte UTF-8, invalid UTF-8, the missing pattern, NULs, '
+         'quotes/backslashes/control characters, blanks), a sample of the other streams and sample files is run through '
+         'pybufrkit.main() in-process (argparse + commands.command_decode / command_encode) for the four formats, the encoder reading '
+         'a file or stdin, and a few through real processes and pipes: each output read back as command_encode reads it must carry '
+         'the data of the flat JSON file and encode to the bytes of the plain re-encode; the literal the command line wrote for each '
+         'character value, json.loads of it, the bits write_bytes makes of it, its repr token and literal_eval of that are compared with '
+         'the model (driver op jsontext), '
+         'json.dumps/json.loads of arbitrary strings and hostile literals with the model\'s escaper/scanner; the option glue '
+         '(encode --preamble/--append/overwrite, split, decode -m / several files, info [-t|-c|-m], subset, query [-j [-n]], script '
+         '[-f|-]) is compared with the API calls it wraps.',
     technique='Lean 4 theorems (mutual structural induction over the template and the node tree) + checked model/implementation '
               'correspondence + property oracle on the implementation',
     note='description strings (table text) are outside the model; meaning nodes surviving from an earlier subset and shared '
          'mutable nodes are modelled by value; in the text formats the value tokens (Python repr / ast.literal_eval) and the '
          'table names are parameters with stated hypotheses (tested per value), section headers and the non-template sections '
-         'of the text renderings are outside the model (oracle only).',
+         'of the text renderings are outside the model (oracle only). Serialised path: Python\'s json module beyond string '
+         'literals (document structure, number formatting), argparse, print and the stream encodings are exercised (in-process and '
+         'through real pipes under the UTF-8 locale of the image), not modelled; the scanner model refuses lone surrogate escapes and '
+         'the non-canonical forms of int(esc, 16) that json.loads accepts (never written by json.dumps). `decode -` (a BUFR message '
+         'on stdin) raises TypeError on Python 3 (sys.stdin.read() is text) and `lookup` / `compile` are not covered.',
 )
 
 # ---------------------------------------------------------------------------------------------
@@ -411,6 +440,10 @@ def run(ctx):
     treq = tables_io.group_request()
     pool = multiprocessing.Pool(min(14, os.cpu_count() or 2))
     try:
+        if ONLY == 'cli':
+            # self-test switch (notes/C09_mutations.py --cli): the serialised path alone
+            from harness.props import c09cli
+            return c09cli.run_cli(ctx, drv, pool, extra_messages=[])
         run_shapes(ctx, drv, treq)
         run_bitmaps(ctx, drv, treq, pool)
         run_generated(ctx, drv, treq, pool)
@@ -418,8 +451,29 @@ def run(ctx):
         # the two text formats: model (View/Text.lean) vs implementation, line by line, and the two converters
         from harness.props import c09text
         c09text.run_text(ctx, drv=drv, pool=pool)
+        # the serialised path: what the command line writes and reads back (theorems Props/C09Cli.lean)
+        from harness.props import c09cli
+        c09cli.run_cli(ctx, drv, pool, extra_messages=cli_sample(ctx))
     finally:
         pool.terminate()
+
+
+def keep_for_cli(ctx, tag, b):
+    """messages of the other streams from which run_cli takes its sample"""
+    ctx.__dict__.setdefault('_c09_cli_msgs', []).append((tag, b))
+
+
+def cli_sample(ctx):
+    msgs = ctx.__dict__.get('_c09_cli_msgs', [])
+    quick = ctx.tier == 'quick'
+    want = {'shapes': 60 if quick else 400, 'bitmaps': 30 if quick else 600, 'generated': 50 if quick else 1200, 'file': 25 if quick else 400}
+    rng = ctx.rng('cli-sample')
+    out = []
+    for stream, k in sorted(want.items()):
+        pool_ = [(t, b) for t, b in msgs if t.split(':')[0] == stream]
+        rng.shuffle(pool_)
+        out += pool_[:k]
+    return out
 
 
 def make_shrinker(ctx, drv, treq, parts, forced, n, comp):
@@ -463,6 +517,8 @@ def run_shapes(ctx, drv, treq):
         ctx.count('shape:' + tag)
         if obs.get('wire', 'ok') != 'ok':
             ctx.count('wire-fails')
+        elif obs.get('decode') == 'ok':
+            keep_for_cli(ctx, 'shapes:' + tag, b)
         check_one(ctx, ids, b, obs, model, tag=tag)
 
 
@@ -501,6 +557,8 @@ def run_generated(ctx, drv, treq, pool):
                 continue
             if obs['wire'] != 'ok':
                 ctx.count('wire-fails')
+            elif obs.get('enc_ok'):
+                keep_for_cli(ctx, 'generated', b)
             forced = {k: v for k, v in c.forced}
             check_one(ctx, c.ids, b, obs, model, shrinker=make_shrinker(ctx, drv, treq, c.parts, forced, c.n, c.comp))
 
@@ -547,6 +605,8 @@ def run_bitmaps(ctx, drv, treq, pool):
                 continue
             if obs['wire'] != 'ok':
                 ctx.count('wire-fails')
+            elif obs.get('enc_ok'):
+                keep_for_cli(ctx, 'bitmaps', b)
             ow = obs.get('owners') or {}
             ctx.count('bitmap:links', ow.get('links', 0))
             if ow.get('subsets_differing'):
@@ -564,6 +624,7 @@ def corpus_item(path):
 
 
 QUICK_MAX_VALUES = 30000
+CLI_MAX_VALUES = 6000   # sample files taken through the command line pipeline (run_cli)
 
 
 def corpus_worker(args):
@@ -617,6 +678,8 @@ def run_corpus(ctx, drv, pool):
             ctx.count('corpus:attribute-on-factor')
         if not obs.get('enc_ok', True):
             ctx.count('corpus:encoder-refused')
+        elif obs.get('wire') == 'ok' and sum(obs['lens']) <= CLI_MAX_VALUES:
+            keep_for_cli(ctx, 'file:' + name, corpus_item(path))
         check_one(ctx, ids, None, obs, model, tag='file:' + name)
 
 
@@ -639,6 +702,9 @@ def replay(ctx, path):
     if 'format' in rep:
         from harness.props import c09text
         return c09text.replay_text(ctx, rep)
+    if rep.get('cli'):
+        from harness.props import c09cli
+        return c09cli.replay_cli(ctx, rep)
     if rep.get('message_hex'):
         b = bytes.fromhex(rep['message_hex'])
         treq = tables_io.group_request()
